@@ -162,6 +162,12 @@ func history(h *vh.H, ci int, r vh.R, full bool) {
 		for _, s := range services {
 			if r.IntN(3) == 0 {
 				acc[s] = types.GasAndNumAccumulatedReports{Gas: types.Gas(r.IntN(1 << 30)), NumAccumulatedReports: types.U64(1 + r.IntN(5))}
+				if r.IntN(4) == 0 {
+					// accumulated without any work report of its own (through deferred transfers, or as an always-accumulate service):
+					// gas was used, no report counted; the record is still part of the block's service statistics
+					acc[s] = types.GasAndNumAccumulatedReports{Gas: types.Gas(1 + r.IntN(1<<30)), NumAccumulatedReports: 0}
+					h.Inc("services_accumulated_without_a_report")
+				}
 			}
 		}
 
